@@ -417,6 +417,25 @@ func buildValues(u *lat.Universe, r *lib.Rng, thorough bool) []*val {
 		add("types", lat.VA(n, w), lat.VA(w, n), lat.VA(n, w, n), lat.VA(w, n, w), lat.VA(n, lat.VT(lat.A("String")), w),
 			lat.VH(n, w), lat.VH(lat.VS("a"), n, lat.VS("b"), w), lat.VH(lat.VS("a"), w, lat.VS("b"), n), lat.VA(lat.VA(n), lat.VA(w)))
 	}
+	// types as values whose fold of commonType goes through the by-specification Struct<-Hash rule: Struct[{a=>Integer}]
+	// accepts Hash[String,Integer,1,1] (by the rule) and is accepted by Hash[Enum[a],Integer,0,5], which does not accept
+	// the Hash type (open finding byspec-struct-accepts-hash-infer; the guard tvals_ok of C04_infer_inst_partial), in
+	// several orders and nestings; and Tuple / Variant types as values (Tuple/Tuple and Variant/Variant common types)
+	{
+		I := lat.Int(lat.Min, lat.Max)
+		sa := lat.VT(lat.Struct(lat.Member{Name: "a", Kind: 0, T: I}))
+		h1 := lat.VT(lat.Hsh(lat.A("String"), I, 1, 1))
+		h2 := lat.VT(lat.Hsh(lat.Enum(false, "a"), I, 0, 5))
+		add("types", lat.VA(sa, h1, h2), lat.VA(h1, sa, h2), lat.VA(h2, sa, h1), lat.VA(lat.VA(sa, h1), lat.VA(h2)),
+			lat.VH(lat.VS("a"), sa, lat.VS("b"), h1, lat.VS("c"), h2))
+		t1 := lat.VT(lat.Tup(lat.Int(0, 5), lat.Int(7, 9)))
+		t2 := lat.VT(lat.Tup(lat.Flt(0, 1)))
+		t3 := lat.VT(lat.Arr(lat.StrVal("a"), 0, 3))
+		v1 := lat.VT(lat.Var(lat.Enum(false, "a", "b"), lat.Int(0, 1)))
+		v2 := lat.VT(lat.Var(lat.Flt(0, 1), lat.Enum(false, "b", "a")))
+		add("types", lat.VA(t1, t2), lat.VA(t2, t1, t3), lat.VA(lat.VA(t1, t2), lat.VA(t3), lat.VA()), lat.VA(v1, v2), lat.VA(v2, v1),
+			lat.VH(v1, t1, v2, t2), lat.VH(lat.VS("a"), lat.VA(t1, t2), lat.VS("b"), lat.VA(t3)))
+	}
 	nr := 1500
 	if thorough {
 		nr = 20000
@@ -968,7 +987,28 @@ func generalizeTags(t *types.VerifTy) []string {
 
 // valueTags: narrow tags for known-finding matchers
 func valueTags(v *types.VerifVal, clause string) []string {
+	if clause == "infer" && typeInside(v, "Struct") && typeInside(v, "Hash") {
+		// the inferred element type of a collection of types is a fold of commonType, which is no upper bound where the
+		// by-specification rule (a Struct accepts a Hash type) makes assignability non-transitive
+		return []string{"byspec-struct-accepts-hash"}
+	}
 	return []string{clause + ":" + v.K}
+}
+
+// typeInside: some type used as a value inside v contains a type of the given kind
+func typeInside(v *types.VerifVal, kind string) bool {
+	if v == nil {
+		return false
+	}
+	if v.T != nil && lat.Contains(v.T, kind) {
+		return true
+	}
+	for _, e := range v.Vs {
+		if typeInside(e, kind) {
+			return true
+		}
+	}
+	return false
 }
 
 // ---------------------------------------------------------------------------------------------
